@@ -14,6 +14,9 @@ def _snap(d):
     for base, _, fs in os.walk(d):
         for f in fs:
             p = os.path.join(base, f)
+            if os.path.islink(p) and not os.path.exists(p):
+                out[os.path.relpath(p, d)] = (b"<dangling symlink>", 0, 0)
+                continue
             st = os.stat(p)
             out[os.path.relpath(p, d)] = (open(p, "rb").read(), st.st_mtime_ns, st.st_ino)
     return out
@@ -26,6 +29,9 @@ def run_cli(binp, files, args, cwd_files=None, stdin=None, env=None, timeout=60)
         for rel, content in files.items():
             p = os.path.join(d, rel)
             os.makedirs(os.path.dirname(p), exist_ok=True)
+            if isinstance(content, tuple) and content[0] == "symlink":
+                os.symlink(content[1], p)
+                continue
             with open(p, "wb") as fh:
                 fh.write(content.encode() if isinstance(content, str) else content)
             old = time.time() - 100000
